@@ -24,6 +24,12 @@ META = {
 }
 
 
+def _idx(res):
+    """index of the record the violated invariant was evaluated on (a violation in the initial state has no 'State n:' header)"""
+    m = re.search(r"l = (\d+)", res.error_state or "")
+    return int(m.group(1)) if m else 1
+
+
 def _summary(p):
     return json.loads([l for l in p.stdout.splitlines() if l.startswith("SUMMARY ")][-1][8:])
 
@@ -58,21 +64,22 @@ def run(ctx):
         while True:
             res = vlib.run_tlc("SigCoverTrace", "SigCoverTrace.cfg", files=[rec], workers=1, timeout=1800, heap="8g")
             if res.violated == "RecordOK":
-                k = int(re.search(r"l = (\d+)", res.error_state).group(1))
+                k = _idx(res)
                 r = rows[k - 1]
                 ctx.report("unmodified-without-cover|%s|%s|%s" % (r["doc"].split("/t")[0], r["fam"], r["sig"]),
                            "%s [%s] %s(%d,%d,%d,%d): file length %d, /ByteRange [%d %d %d %d], hex string at [%d,%d) does not cover, "
                            "but validation reports status=%s reason=%s docModified=%s" % (
                                r["doc"], r["sig"], r["fam"], r["p1"], r["p2"], r["p3"], r["p4"], r["f"], r["a"], r["b"], r["c"], r["d"],
                                r["gaplo"], r["gaphi"], r["status"], r["reason"], r["docmod"]), r)
-                validated += k
-                rows = rows[k:]
-                if not rows or len(ctx.violations) > 25:
+                validated += 1
+                same = lambda x: (x["doc"].split("/t")[0], x["fam"], x["sig"]) == (r["doc"].split("/t")[0], r["fam"], r["sig"])
+                rows = [x for x in rows if not same(x)]
+                if not rows or len(ctx.violations) >= 12:
                     break
                 vlib.write_ndjson(rec, rows)
                 continue
             if res.violated in ("PredictOK", "NonVacuous"):
-                k = int(re.search(r"l = (\d+)", res.error_state).group(1))
+                k = _idx(res)
                 raise vlib.HarnessError("%s failed on record %s" % (res.violated, json.dumps(rows[k - 1])))
             if not res.ok:
                 raise vlib.HarnessError("SigCoverTrace did not accept the records: %s\n%s" % (res.violated, res.out[-2000:]))
